@@ -185,9 +185,9 @@ def main():
                            for i in ids if i not in CHECKS],
         "notes": "All checks: exit 0 held / 1 with VIOLATION lines / 2 harness error. VERIF_SEED and VERIF_TIER are honoured. "
                  "Genuine defects found were repaired by fix: commits in /repo (known_findings.json lists them under 'fixed' with their pinned replay "
-                 "cases); four defects are recorded as open known findings instead (known_findings.json 'findings': C15 integer-array gradients "
+                 "cases); five defects are recorded as open known findings instead (known_findings.json 'findings': C15 integer-array gradients "
                  "rounded to integers; C15 np.sign of a complex value treated as a constant; C17 checkpoint of a function closing over a value traced at "
-                 "the same level; C05 a list / tuple argument passed whole to a NumPy function gets an ndarray gradient): the check prints a KNOWN-FINDING "
+                 "the same level; C05 a list / tuple argument passed whole to a NumPy function gets an ndarray gradient; C08 a fixed_point map closing over a value another level differentiates): the check prints a KNOWN-FINDING "
                  "line for each and exits 0, any other violation of those properties is still a VIOLATION.",
     }
     with open(os.path.join(os.path.dirname(__file__), "MANIFEST.json"), "w") as f:
